@@ -454,26 +454,48 @@ pub fn generated_programs(r: &Report) -> Vec<Prog> {
             .collect();
         let d1 = gen::extend(&base, &base_types);
         for (rec, tys) in d1.iter() {
-            if seen.insert(rec.desc()) {
+            // four-leaf families exist for the n-ary structural operations; their unary/binary depth-1 programs duplicate family 0
+            let nary_only = leaves.len() >= 4 && rec.steps[0].operands().len() < 3;
+            if !nary_only && seen.insert(rec.desc()) {
                 let mut p = recipe_prog(rec);
-                if !thorough && fi >= 2 {
+                if (!thorough && fi >= 2) || n_inputs >= 4 {
                     p.owners = Some(covering_owners(n_inputs));
                 }
                 progs.push(p);
                 r.count("programs_depth1", 1);
             }
-            if !rec.steps[0].is_multiplicative() || (!thorough && fi >= 2) {
+            // planner-relevant depth 2: first step multiplicative / conversion; for structured inputs: first step a getter
+            let structured = leaves.len() >= 4 || leaves.iter().any(|l| matches!(l, Leaf::Input(t) if !(t.is_array() || t.is_scalar())));
+            let getter = matches!(rec.steps[0], gen::Step::TupleGet(_, _) | gen::Step::NamedGet(_, _) | gen::Step::VectorGet(_, _) | gen::Step::V2A(_));
+            if !(rec.steps[0].is_multiplicative() || (structured && getter)) || (!thorough && fi >= 2 && !structured) {
+                continue;
+            }
+            if leaves.len() >= 4 && !matches!(rec.steps[0], gen::Step::Mul(0, 1) | gen::Step::Dot(0, 1)) {
                 continue;
             }
             for (rec2, _) in gen::extend(rec, tys) {
+                // four-leaf families: only n-ary structural second steps (the binary ones are covered by the other families)
+                if leaves.len() >= 4 && rec2.steps[1].operands().len() < 3 {
+                    continue;
+                }
                 if seen.insert(rec2.desc()) {
                     let mut p = recipe_prog(&rec2);
                     if thorough && n_inputs >= 3 {
                         p.owners = Some(covering_owners(n_inputs));
                     }
+                    if n_inputs >= 4 {
+                        p.outs = Some(vec![vec![], vec![1], vec![0, 2]]);
+                    }
                     if !thorough {
                         let c = covering_owners(n_inputs);
-                        p.owners = Some(vec![c[0].clone(), c[3].clone(), c[4].clone(), c[7].clone()]);
+                        let mut pick: Vec<Vec<Owner>> = vec![];
+                        for k in [0usize, 3, 4, 7] {
+                            let o = c[k % c.len()].clone();
+                            if !pick.contains(&o) {
+                                pick.push(o);
+                            }
+                        }
+                        p.owners = Some(pick);
                         p.outs = Some(vec![vec![], vec![1], vec![0, 2]]);
                     }
                     progs.push(p);
